@@ -632,7 +632,25 @@ LOGRING = dict(
                  "entries are written directly through zapcore.Core.Write of the root core and of cores returned by With"],
 )
 
-FAMILIES = {"C01": MPT, "C02": MPT, "C14": MPT, "C06": SC, "C07": SC, "C08": C08, "C03": ROUNDS, "C04": ROUNDS, "C05": ROUNDS, "C17": SYNC, "C16": C16, "C09": WMPT, "C11": WMPT, "C13": WMPT, "C10": PROOF, "C12": WPATH, "C15": CODEC, "C20": LOGRING}
+# ----------------------------------------------------------------------------- family: merkle (C19)
+
+MERKLE = dict(
+    name="merkle", component="merkle", trace_module="MerkleTreeTrace", trace_cfg="MerkleTreeTrace.cfg",
+    design={"quick": [("MerkleTree", "MerkleTree_MC.cfg")], "thorough": [("MerkleTree", "MerkleTree_MC64.cfg")]},
+    exec_args=lambda tier, seed: (["-maxn", 300, "-n", 60] if tier == "quick" else ["-maxn", 600, "-n", 2000]),
+    flags={"C19": {"panic", "size", "layout", "pathpos", "verifyindex", "verifyleaf", "foreign", "settree"}},
+    distinct=lambda s: s.get("distinct_leaf_counts", 0),
+    rule="trees = every leaf count 1..300 (thorough 1..600) with every leaf index, plus sampled larger trees (up to ~4300 leaves, "
+         "sizes around powers of two) with boundary and random indices; per path: the array positions of the returned nodes, "
+         "verification by index and by leaf lookup, rejection of every other leaf (all for n <= 64, neighbours and random otherwise) "
+         "and of a non-leaf hash, SetTree(GetTree()) round trip; per tree: parent = MHash(left, right-or-left) at the positions of the "
+         "specification's layout; distinct_nontrivial = distinct leaf counts",
+    summary_keys=["paths", "panics"],
+    ops_of=lambda ev: dict(event="tree n=%s" % ev[0].get("n")),
+    assumptions=["sha3 collision freedom (symbolic hashing in the specification)", "leaf hashes are pairwise distinct"],
+)
+
+FAMILIES = {"C01": MPT, "C02": MPT, "C14": MPT, "C06": SC, "C07": SC, "C08": C08, "C03": ROUNDS, "C04": ROUNDS, "C05": ROUNDS, "C17": SYNC, "C16": C16, "C09": WMPT, "C11": WMPT, "C13": WMPT, "C10": PROOF, "C12": WPATH, "C15": CODEC, "C20": LOGRING, "C19": MERKLE}
 PROPS = dict(FAMILIES)
 
 
